@@ -81,16 +81,23 @@ impl<T: ServiceStateActions + Send> ServiceManager<T> {
             // of a fault, we will drop to the code below and attempt to start it again.
             // We use `get_process_pid` because it searches for the process with the service binary
             // path, and this path is unique to each service.
-            if self
+            match self
                 .service_control
                 .get_process_pid(&self.service.bin_path())
-                .is_ok()
             {
-                debug!("The {} service is already running", self.service.name());
-                if self.verbosity != VerbosityLevel::Minimal {
-                    println!("The {} service is already running", self.service.name());
+                Ok(_) => {
+                    debug!("The {} service is already running", self.service.name());
+                    if self.verbosity != VerbosityLevel::Minimal {
+                        println!("The {} service is already running", self.service.name());
+                    }
+                    return Ok(());
                 }
-                return Ok(());
+                // Only a process that could be looked up and was not found has stopped.
+                Err(ServiceError::ServiceProcessNotFound(_)) => {}
+                Err(err) => {
+                    error!("Could not determine whether the service process is running: {err}");
+                    return Err(err.into());
+                }
             }
         }
 
@@ -186,27 +193,36 @@ impl<T: ServiceStateActions + Send> ServiceManager<T> {
                 let pid = self.service.pid().ok_or(Error::PidNotSet)?;
                 let name = self.service.name();
 
-                if self
+                match self
                     .service_control
                     .get_process_pid(&self.service.bin_path())
-                    .is_ok()
                 {
-                    if self.verbosity != VerbosityLevel::Minimal {
-                        println!("Attempting to stop {}...", name);
+                    Ok(_) => {
+                        if self.verbosity != VerbosityLevel::Minimal {
+                            println!("Attempting to stop {}...", name);
+                        }
+                        self.service_control
+                            .stop(&name, self.service.is_user_mode())?;
+                        if self.verbosity != VerbosityLevel::Minimal {
+                            println!(
+                                "{} Service {} with PID {} was stopped",
+                                "✓".green(),
+                                name,
+                                pid
+                            );
+                        }
                     }
-                    self.service_control
-                        .stop(&name, self.service.is_user_mode())?;
-                    if self.verbosity != VerbosityLevel::Minimal {
-                        println!(
-                            "{} Service {} with PID {} was stopped",
-                            "✓".green(),
-                            name,
-                            pid
-                        );
+                    // Only a process that could be looked up and was not found has stopped.
+                    Err(ServiceError::ServiceProcessNotFound(_)) => {
+                        if self.verbosity != VerbosityLevel::Minimal {
+                            debug!("Service {name} was already stopped");
+                            println!("{} Service {} was already stopped", "✓".green(), name);
+                        }
                     }
-                } else if self.verbosity != VerbosityLevel::Minimal {
-                    debug!("Service {name} was already stopped");
-                    println!("{} Service {} was already stopped", "✓".green(), name);
+                    Err(err) => {
+                        error!("Could not determine whether the service process is running: {err}");
+                        return Err(err.into());
+                    }
                 }
 
                 self.service.on_stop().await?;
@@ -229,27 +245,34 @@ impl<T: ServiceStateActions + Send> ServiceManager<T> {
 
     pub async fn remove(&mut self, keep_directories: bool) -> Result<()> {
         if let ServiceStatus::Running = self.service.status() {
-            if self
+            match self
                 .service_control
                 .get_process_pid(&self.service.bin_path())
-                .is_ok()
             {
-                error!(
-                    "Service {} is already running. Stop it before removing it",
+                Ok(_) => {
+                    error!(
+                        "Service {} is already running. Stop it before removing it",
+                        self.service.name()
+                    );
+                    return Err(Error::ServiceAlreadyRunning(vec![self.service.name()]));
+                }
+                // Only a process that could be looked up and was not found has stopped.
+                Err(ServiceError::ServiceProcessNotFound(_)) => {
+                    // If the node wasn't actually running, we should give the user an opportunity to
+                    // check why it may have failed before removing everything.
+                    self.service.on_stop().await?;
+                    error!(
+                    "The service: {} was marked as running but it had actually stopped. You may want to check the logs for errors before removing it. To remove the service, run the command again.",
                     self.service.name()
                 );
-                return Err(Error::ServiceAlreadyRunning(vec![self.service.name()]));
-            } else {
-                // If the node wasn't actually running, we should give the user an opportunity to
-                // check why it may have failed before removing everything.
-                self.service.on_stop().await?;
-                error!(
-                "The service: {} was marked as running but it had actually stopped. You may want to check the logs for errors before removing it. To remove the service, run the command again.",
-                self.service.name()
-            );
-                return Err(Error::ServiceStatusMismatch {
-                    expected: ServiceStatus::Running,
-                });
+                    return Err(Error::ServiceStatusMismatch {
+                        expected: ServiceStatus::Running,
+                    });
+                }
+                Err(err) => {
+                    error!("Could not determine whether the service process is running: {err}");
+                    return Err(err.into());
+                }
             }
         }
 
@@ -585,7 +608,8 @@ pub async fn refresh_node_registry(
                     );
                     service.on_start(Some(pid), full_refresh).await?;
                 }
-                Err(_) => {
+                // Only a process that could be looked up and was not found has stopped.
+                Err(ServiceError::ServiceProcessNotFound(_)) => {
                     match service.status() {
                         ServiceStatus::Added => {
                             // If the service is still at `Added` status, there hasn't been an attempt
@@ -609,6 +633,10 @@ pub async fn refresh_node_registry(
                             service.on_stop().await?;
                         }
                     }
+                }
+                Err(err) => {
+                    error!("Could not determine whether the service process is running: {err}");
+                    return Err(err.into());
                 }
             }
         }
